@@ -140,6 +140,13 @@ func (h *Hub) reportPairingDetailUpdate(ski string, detail *api.ConnectionStateD
 	h.muxPairingUpdate.Lock()
 	defer h.muxPairingUpdate.Unlock()
 
+	h.reportPairingDetailUpdateLocked(ski, detail)
+}
+
+// report a pairing detail update right away, any older update still being delayed is dropped
+//
+// muxPairingUpdate has to be locked
+func (h *Hub) reportPairingDetailUpdateLocked(ski string, detail *api.ConnectionStateDetail) {
 	h.markPairingUpdateReported(ski, h.nextPairingUpdateSequence(ski))
 
 	h.hubReader.ServicePairingDetailUpdate(ski, detail)
